@@ -131,6 +131,7 @@ def run(run):
     ]
     run.rule = ("operator families (elementwise, reductions, groupby agg/apply/transform, sort/set_index, cumulative, shift/diff/fill/rolling, dedup, n-largest, ...) x ALL 2^(n-1) cuts of an n-row table "
                 "(known and unknown divisions) + layouts with empty partitions; two-input families (joins of every kind and key placement, alignment, concat) x independently chosen cuts of both inputs; "
+                "reductions / groupby aggregations x split_every in {False, 2, 3, default} x skipna / min_count / ddof / dropna / n x layouts with 1..10 partitions (tree depth 1..4), float / int / bool / nullable columns with and without missing values; "
                 "dask result (optimized) vs pandas on the concatenated input; row order / index labels ignored only where documented unspecified; non-trivial = layout with >= 2 partitions")
     run.proofs("PropC02.v")
     quick = run.tier == "quick"
@@ -200,6 +201,9 @@ def run(run):
     run.sample({"family": "groupby-agg", "layout": "cuts[1, 4] unknown divisions"})
     import align_layer
     align_layer.align_layer(run, rt, quick)
+    # every reduction that takes split_every, at every depth of the reduction tree (the default split_every=False never combines)
+    import reduce_layer
+    reduce_layer.reduce_layer(run, rt, quick)
     progcheck.run_programs(run, {"C02"}, 150 if quick else 4000, profile="l1", own={"C02"}, with_steps=False)
     progcheck.run_programs(run, {"C02"}, 100 if quick else 3000, profile="l2", own={"C02"}, with_steps=False)
 
